@@ -31,6 +31,7 @@ type abstraction struct {
 }
 
 var inlineTags = map[string]bool{"b": true, "i": true, "em": true, "strong": true, "span": true, "u": true, "code": true}
+
 // block-level containers that behave alike in the converter (also when empty, since 18a8bea)
 var blockDivTags = map[string]bool{"div": true, "section": true, "article": true, "main": true, "address": true, "header": true}
 
